@@ -138,12 +138,22 @@ func buildC16(c *core.Ctx, idx int) []c16Op {
 	return opsl
 }
 
-func c16Script(opsl []c16Op, capPages int, dir string) script {
+// c16IDBase: the row-id counter the workload starts from - a fresh database,
+// or one that has handed out ids before (just below 2^16, 2^24, 2^31, close to
+// the top): keys of every width get written to pages and read back.
+func c16IDBase(idx int) int {
+	return []int{0, 65500, 0, 16777000, 1 << 31, 0, 4294000000, 65000}[idx%8]
+}
+
+func c16Script(opsl []c16Op, capPages int, dir string, idBase int) script {
 	var s script
 	s.add(proto.Op{K: "cfg", N: 1, M: capPages, S: "count-misses"})
 	s.k("init")
 	s.sql("CREATE DATABASE d1")
 	s.sql("USE d1")
+	if idBase > 0 {
+		s.add(proto.Op{K: "setlastkey", N: idBase})
+	}
 	for _, o := range opsl {
 		if o.stmt != nil {
 			s.stmt(o.stmt)
@@ -172,7 +182,7 @@ func rowsKey(r *proto.Res) string {
 }
 
 func checkC16(c *core.Ctx) []core.Floor {
-	c.Rule = "seeded workloads over 2-4 tables of 200-500 rows (quick) / 300-2000 rows (thorough) (inserts <= 40 rows, updates/deletes over <= 12 consecutive keys - in one workload in four also over 150-320 consecutive keys, changing 40-80 pages in one statement -, full scans, filtered scans, catalog scans), dirty pages flushed after every statement; run once with the default cache (10000 pages), measuring the largest per-statement dirty set and the tree height, then with small capacities chosen above that dirty set (precondition of the property guaranteed by construction); every statement outcome, every SELECT result (with row ids) and the final contents must be identical. Beyond the property's precondition (a statement whose dirty set EXCEEDS the capacity) one more thing is judged, on as many further runs: the statement may be refused with 'cache is full', but if it reports success its effects have to be there - every row of an accepted UPDATE changed, of an accepted DELETE gone, of an accepted INSERT present - immediately and after flush + reload. Distinct = (workload, capacity); non-trivial = the small run re-read at least 1000 pages from the file."
+	c.Rule = "seeded workloads over 2-4 tables of 200-500 rows (quick) / 300-2000 rows (thorough) (inserts <= 40 rows, updates/deletes over <= 12 consecutive keys - in one workload in four also over 150-320 consecutive keys, changing 40-80 pages in one statement -, full scans, filtered scans, catalog scans), dirty pages flushed after every statement, in a fresh database or in one whose row-id counter starts just below 2^16, 2^24, 2^31 or close to 2^32; run once with the default cache (10000 pages), measuring the largest per-statement dirty set and the tree height, then with small capacities chosen above that dirty set (precondition of the property guaranteed by construction); every statement outcome, every SELECT result (with row ids) and the final contents must be identical. Beyond the property's precondition (a statement whose dirty set EXCEEDS the capacity) one more thing is judged, on as many further runs: the statement may be refused with 'cache is full', but if it reports success its effects have to be there - every row of an accepted UPDATE changed, of an accepted DELETE gone, of an accepted INSERT present - immediately and after flush + reload. Distinct = (workload, capacity); non-trivial = the small run re-read at least 1000 pages from the file."
 	c.Assume = []string{"the default-capacity run is the reference; its own correctness is C01's business"}
 	drv := mustDriver(c, false)
 	n := 24
@@ -192,7 +202,7 @@ func runC16(c *core.Ctx, drv string, idx int) {
 	opsl := buildC16(c, idx)
 	dir := c.CaseDir("c16")
 	defer removeAll(dir)
-	ref := c16Script(opsl, 0, dir)
+	ref := c16Script(opsl, 0, dir, c16IDBase(idx))
 	out := core.RunScript(drv, dir, ref.ops, 300*time.Second)
 	if out.Died {
 		c.Inconclusive("reference-run", fmt.Sprintf("default-capacity run died at op %d: %s", out.LastBeg, core.FatalTail(out.Stderr)))
@@ -234,7 +244,7 @@ func runC16(c *core.Ctx, drv string, idx int) {
 			continue
 		}
 		d2 := c.CaseDir("c16s")
-		sc := c16Script(opsl, cp, d2)
+		sc := c16Script(opsl, cp, d2, c16IDBase(idx))
 		o2 := core.RunScript(drv, d2, sc.ops, 300*time.Second)
 		removeAll(d2)
 		replay := func(at int) interface{} {
